@@ -66,6 +66,16 @@ namespace c14
         return l;
     }
 
+    struct CopyRefused
+    {
+    };
+    // n > 0: the n-th copy construction of a Tracked from now on throws CopyRefused (0: never)
+    inline int &copy_failure_in()
+    {
+        static int n = 0;
+        return n;
+    }
+
     struct Tracked
     {
         enum
@@ -103,6 +113,9 @@ namespace c14
         }
         Tracked(const Tracked &o) : v(FROM_NONLIVE), own(nullptr)
         {
+            // injected failure (armed by the harness for one specific copy): the object never comes to life
+            if (copy_failure_in() > 0 && --copy_failure_in() == 0)
+                throw CopyRefused{};
             born();
             if (o.alive("copy_from_nonlive"))
             {
@@ -181,6 +194,34 @@ namespace c14
                 ledger().flag("owned_byte_mismatch", this);
             return v;
         }
+    };
+
+    // single-pass input iterator over a vector: all copies share the read position
+    template <class T> struct OnePass
+    {
+        using iterator_category = std::input_iterator_tag;
+        using value_type = T;
+        using difference_type = std::ptrdiff_t;
+        using pointer = const T *;
+        using reference = const T &;
+        const std::vector<T> *src;
+        std::shared_ptr<size_t> pos;
+        bool is_end;
+        bool at_end() const { return is_end || *pos >= src->size(); }
+        reference operator*() const { return (*src)[*pos]; }
+        OnePass &operator++()
+        {
+            ++*pos;
+            return *this;
+        }
+        OnePass operator++(int)
+        {
+            OnePass t = *this;
+            ++*pos;
+            return t;
+        }
+        bool operator==(const OnePass &o) const { return at_end() == o.at_end() && (at_end() || *pos == *o.pos); }
+        bool operator!=(const OnePass &o) const { return !(*this == o); }
     };
 
     template <class T> struct Elem;
@@ -644,13 +685,28 @@ namespace c14
                     sl[k].ref = a;
                 }
                 break;
-            case 6: // bidirectional iterators
+            case 6: // bidirectional iterators; for sources of odd length a single-pass input range (every copy of the
+                    // iterator shares one read position, as with std::istream_iterator): it can be walked only once
                 op = "ctor_range";
                 if constexpr (Api::range)
                 {
-                    c.log("s%d=V(list %s) ", k, ints(a).c_str());
-                    std::list<T> src(a.begin(), a.end());
-                    new (at) V(src.begin(), src.end());
+                    if (a.size() % 2)
+                    {
+                        c.log("s%d=V(single-pass range %s) ", k, ints(a).c_str());
+                        c.label("ctor_single_pass_range");
+                        std::vector<T> src;
+                        src.reserve(a.size());
+                        for (int x : a)
+                            src.emplace_back(x);
+                        auto pos = std::make_shared<size_t>(0);
+                        new (at) V(OnePass<T>{&src, pos, false}, OnePass<T>{&src, pos, true});
+                    }
+                    else
+                    {
+                        c.log("s%d=V(list %s) ", k, ints(a).c_str());
+                        std::list<T> src(a.begin(), a.end());
+                        new (at) V(src.begin(), src.end());
+                    }
                     sl[k].ref = a;
                 }
                 break;
@@ -720,6 +776,38 @@ namespace c14
                     v.push_back(T(x));
                 else
                 {
+                    bool handled = false;
+                    if constexpr (E::tracked)
+                        if (x == 7)
+                        {
+                            // the copy this push_back makes fails: the container must be exactly what it was (no slot may
+                            // count as an element that was never constructed)
+                            c.log("[copy refused] ");
+                            c.label("push_back_copy_refused");
+                            bool refused = false, armed;
+                            {
+                                T tmp(x);
+                                copy_failure_in() = 1;
+                                try
+                                {
+                                    v.push_back(tmp);
+                                }
+                                catch (const CopyRefused &)
+                                {
+                                    refused = true;
+                                }
+                                armed = copy_failure_in() != 0; // still armed: no copy was made (full container)
+                                copy_failure_in() = 0;
+                            }
+                            VP_CHECK(refused || armed, sig2("copy_not_refused", "push_back"), "the armed copy was made but no exception came out of push_back");
+                            handled = true;
+                        }
+                    if (handled)
+                    {
+                        cut(ref);
+                        check("push_back_refused");
+                        break;
+                    }
                     T tmp(x);
                     v.push_back(tmp);
                     VP_CHECK(E::get(tmp) == x, sig2("lvalue_argument_changed", "push_back"), "push_back(lvalue) left its argument as %d, it held %d", E::get(tmp),
